@@ -16,7 +16,7 @@
   `PubSubManager` / `pattern_matches` (in-process) and on the real server over TCP with the
   model switch set from the same extraction.
 -/
-import FerrousSpec.Proofs.PubSubAcks
+import FerrousSpec.Proofs.PubSubSess
 import FerrousSpec.Gen.PubSub
 namespace Ferrous.C14
 open Ferrous Ferrous.PubSub
@@ -341,6 +341,80 @@ theorem class_pattern_matches :
 /-- The loop's iteration budget in the model is never the reason for an answer. -/
 theorem glob_fuel_irrelevant (p s : Bytes) (fuel : Nat) (h : globFuel p s ≤ fuel) :
     globLoop fuel p s none = globBytes p s := globLoop_fuel_irrelevant p s fuel h
+
+/-! ### (7) Connections: the close event, subscriber context -/
+
+/-- The switches of the connection layer as the translator reads them off the current tree. -/
+def treeQuirks : Quirks := ⟨Gen.pubsubReleasesAtClose, Gen.pubsubSubscriberGate⟩
+
+/-- A session (commands of clients, close events, blocking) executes core pub/sub operations: its
+    pub/sub state is the core model's state after the operations it really executed, so every
+    theorem above speaks about it. -/
+theorem session_runs_pubsub (q : Quirks) (l : List LOp) :
+    (Sess.run q {} l).1.st = Code.after {} (Sess.run q {} l).2 :=
+  Sess.run_state q l {}
+
+/-- FULL STATEMENT (`releaseAtClose = true`): from the moment the server marks connection `c` as
+    closing (CLIENT KILL by another client, its QUIT, a protocol error), in every interleaving of
+    whatever all clients and the server do afterwards, and for as long as `c` has not been removed,
+    no PUBLISH on any channel delivers to `c` or counts it. -/
+theorem nothing_after_close (q : Quirks) (hq : q.releaseAtClose = true) (dedup : Bool) (l1 l2 : List LOp) (c : ConnId)
+    (hl : LOp.op (.disconnect c) ∉ l2) (ch : Bytes) :
+    ∀ d ∈ publish dedup (Sess.run q {} (l1 ++ .close c :: l2)).1.st ch, d.1 ≠ c := by
+  rw [Sess.run_append]
+  simp only [Sess.run]
+  have hinv1 : Inv (Sess.run q {} l1).1.st := Inv.sess_run l1 {} Inv.init
+  have hstep : Sess.step q (Sess.run q {} l1).1 (.close c) =
+      ({ st := unsubscribeAll (Sess.run q {} l1).1.st c, closed := sins (Sess.run q {} l1).1.closed c,
+         blocked := (Sess.run q {} l1).1.blocked }, [.disconnect c]) := by
+    rw [Sess.step_close, if_pos hq]
+  obtain ⟨hinv, hh⟩ := closed_quiet_run q c l2 (Sess.step q (Sess.run q {} l1).1 (.close c)).1
+    (hinv1.sess_step _) (by rw [hstep]; exact (mem_sins _ _ _).2 (Or.inr rfl))
+    (by intro k; rw [hstep]; simp only; rw [held_unsubscribeAll]; simp) hl
+  intro d hd e
+  obtain ⟨d1, d2⟩ := d
+  simp only at e
+  subst e
+  exact no_delivery_of_quiet hinv ⟨by rw [hh]; simp, by rw [hh]; intro p hp; cases hp⟩ d2 hd
+
+/-- WITNESS (`releaseAtClose = false`, the tree before the repair): the closed connection is still
+    delivered to and counted until it is physically removed — `SUBSCRIBE a` by 1, the server closes 1,
+    `PUBLISH a` still has the receiver 1. -/
+theorem close_lag_delivers :
+    publish false (Sess.run ⟨false, true⟩ {} [.op (.subscribe 1 .chan [[97]]), .close 1]).1.st [97] = [(1, none)] ∧
+    publish false (Sess.run ⟨true, true⟩ {} [.op (.subscribe 1 .chan [[97]]), .close 1]).1.st [97] = [] := by decide
+
+/-- Subscriber context (`gate = true`): from a connection that holds subscriptions, any command other
+    than (P)SUBSCRIBE, (P)UNSUBSCRIBE, PING, QUIT — also PUBLISH, also one that would block — changes
+    nothing: no state change, nothing executed, nobody blocked. -/
+theorem gate_refuses (q : Quirks) (hq : q.gate = true) (s : Sess) (c : ConnId) (hs : subscribed s.st c = true) :
+    (∀ b, Sess.step q s (.cmd c b) = (s, [])) ∧ (∀ ch m, Sess.step q s (.op (.publish c ch m)) = (s, [])) := by
+  constructor
+  · intro b
+    rcases Sess.step_cmd_cases q s c b with h | ⟨hg, _⟩
+    · exact h
+    · simp [hq, hs] at hg
+  · intro ch m
+    rcases Sess.step_op_cases q s (.publish c ch m) c rfl with h | ⟨hn, h⟩
+    · exact h
+    · simp only [Sess.step, Op.sender, Op.isPublish, hn, if_false, hq, hs, Bool.and_self, if_true]
+
+/-- FULL STATEMENT (`gate = true`): in every reachable session no connection that a PUBLISH delivers
+    to is blocked — the event loop serves every receiver, no delivery is ever deferred. -/
+theorem never_deferred (q : Quirks) (hq : q.gate = true) (dedup : Bool) (l : List LOp) (ch : Bytes) :
+    ∀ d ∈ publish dedup (Sess.run q {} l).1.st ch, d.1 ∉ (Sess.run q {} l).1.blocked := by
+  intro d hd hb
+  have hidle : BlockedIdle (Sess.run q {} l).1 := BlockedIdle.run hq l {} (by intro c hc; cases hc)
+  have hsub := subscribed_of_delivery (Inv.sess_run l {} Inv.init) hd
+  rw [hidle d.1 hb] at hsub
+  cases hsub
+
+/-- WITNESS (`gate = false`, the tree before the repair): `SUBSCRIBE a` by 1, then a blocking command by
+    1 (`BLPOP nolist 0`): 1 is blocked and a PUBLISH on `a` counts a delivery to it. -/
+theorem deferred_without_gate :
+    (Sess.run ⟨true, false⟩ {} [.op (.subscribe 1 .chan [[97]]), .cmd 1 true]).1.blocked = [1] ∧
+    publish false (Sess.run ⟨true, false⟩ {} [.op (.subscribe 1 .chan [[97]]), .cmd 1 true]).1.st [97] = [(1, none)] ∧
+    (Sess.run ⟨true, true⟩ {} [.op (.subscribe 1 .chan [[97]]), .cmd 1 true]).1.blocked = [] := by decide
 
 /-! ### Non-vacuity: concrete non-trivial instances -/
 
